@@ -621,6 +621,9 @@ func ConvertNetFlowDataSet(flowMessage *ProtoProducerMessage, version uint16, ba
 					}
 					flowMessage.Packets = 1
 				case netflow.IPFIX_FIELD_dataLinkFrameSection:
+					if mapperSFlow == nil { // no configuration: default dissector, as for sFlow
+						mapperSFlow = DefaultEnvironment
+					}
 					if err := mapperSFlow.ParsePacket(flowMessage, v); err != nil {
 						return err
 					}
